@@ -132,6 +132,26 @@ class SFrame:
     def copy(self, *a, **k):
         return SFrame({c: SSeries(s_.arr.copy()) for c, s_ in self.cols.items()})
 
+    def sort_values(self, by=None, inplace=False, **kw):
+        """A-PANDAS DataFrame.sort_values(by=[c1, c2, ...]) on integer columns: the rows in lexicographic order of (c1, c2, ...), ties in table
+        order (pandas sorts several keys with a stable lexsort; a single key with kind='quicksort' is NOT stable and is refused)"""
+        from . import models as M
+        by = [by] if isinstance(by, str) else list(by)
+        if len(by) < 2 and kw.get("kind") not in ("stable", "mergesort"):
+            raise Unsupported("sort_values by a single column without a stable kind")
+        if kw.get("ascending", True) is not True or kw.get("na_position", "last") != "last" or kw.get("key") is not None:
+            raise Unsupported("sort_values options other than the defaults")
+        keys = [self.cols[c].arr for c in reversed(by)]                # np.lexsort: last key is the primary one
+        perm = M._lexsort(None, [keys], {})
+        new = {c: SSeries(A.getitem(s_.arr, perm)) for c, s_ in self.cols.items()}
+        self.last_sort = {"perm": perm, "by": by}
+        if inplace:
+            self.cols = new
+            return None
+        out = SFrame(new)
+        out.last_sort = self.last_sort
+        return out
+
     @property
     def shape(self):
         return (self.length(), len(self.cols))
